@@ -260,6 +260,12 @@ def client_write_paths(ctx):
         o.rule = 'C02.R5'
 
 
+@rule('C02.R7', min_instances=3)
+def grid_quotient_is_rounded(ctx):
+    """shared with C03.R5: scaled values are converted to grid indices by int(round(x / scale))"""
+    c03.grid_quotient_is_rounded(ctx)
+
+
 @rule('C02.R6', min_instances=5)
 def text_form_pairing(ctx):
     """to_string override => from_string override; containers propagate unit=False"""
@@ -272,6 +278,22 @@ def text_form_pairing(ctx):
             ctx.check(_own_or_inherited_below_datatype(m, ci, 'from_string'), f'{q}:to_string paired with from_string', ci.methods['to_string'].node,
                       'from_string is overridden too', f'{ci.name} overrides to_string but not from_string: the text offered to '
                       'the user is not accepted back', ci.methods['to_string'])
+    # identity text form: when to_string returns the value unchanged, from_string must validate the text unchanged
+    for q in m.subclasses(f'{DT}.DataType'):
+        ci = m.classes[q]
+        ts, fs = ci.methods.get('to_string'), ci.methods.get('from_string')
+        if ci.module.name != DT or ts is None or fs is None:
+            continue
+        tp = ts.node.args.args[1].arg
+        ident = all(isinstance(r.value, ast.Name) and r.value.id == tp for r in body_walk(ts.node) if isinstance(r, ast.Return))
+        if not ident:
+            continue
+        fp = fs.node.args.args[1].arg
+        for r in [r for r in body_walk(fs.node) if isinstance(r, ast.Return) and isinstance(r.value, ast.Call) and src(r.value.func) == 'self']:
+            a = r.value.args[0] if r.value.args else None
+            ctx.check(isinstance(a, ast.Name) and a.id == fp, f'{q}:identity text form is parsed unchanged', r, f'self({fp})',
+                      f'to_string returns the string unchanged but from_string validates `{src(a) if a is not None else ""}`: a valid string with leading or '
+                      'trailing white space does not map back to itself', fs)
     for cname in CONTAINERS:
         ci = _cls(m, cname)
         f = ci.methods.get('format_value')
@@ -307,3 +329,10 @@ def text_form_pairing(ctx):
                               f'`{flag.id}` can be true although unit is False: the text form of the container contains units', f)
                 else:
                     ctx.undecided(construct, c, 'flag expression not recognised', f)
+
+
+@rule('C02.R8', min_instances=1)
+def int_import_keeps_precision(ctx):
+    """shared with C01.R3b: IntRange.__call__ (= its import_value) converts the offered value itself, not a float copy"""
+    from sa.rules import c01
+    c01.int_of_the_value_itself(ctx)
